@@ -42,7 +42,7 @@ def bounds(tier):
 def required_cells(tier):
     cells = ["pat:anchored", "pat:dir-only", "pat:star", "pat:question", "pat:class", "pat:**/x", "pat:x/**", "pat:a/**/b",
              "pat:escape", "pat:trailing-space", "pat:comment", "pat:negation", "pat:reinclude-below-excluded-dir", "pat:none",
-             "pat:repeated-after-negation", "pat:leading-dot-slash", "multi-directory-code-base", "multi-directory:name-prefix-related", "pat:absolute-path-of-the-root-as-prefix", "name:line-break-character",
+             "pat:repeated-after-negation", "pat:leading-dot-slash", "multi-directory-code-base", "multi-directory:name-prefix-related", "pat:absolute-path-of-the-root-as-prefix", "name:line-break-character", "link:hard", "link:loop", "special:fifo", "iter:after-file-system-change",
              "link:file-inside", "link:dir-inside", "link:outside", "link:dangling", "link:chain",
              "spell:absolute", "spell:relative-root", "spell:relative-other-cwd", "spell:dot", "spell:dotdot", "spell:via-link", "spell:same-spelling-other-cwd",
              "member:yes", "member:no-extension", "member:no-excluded", "member:no-outside", "member:no-directory",
@@ -82,7 +82,7 @@ def gen_tree(rng):
     outside = []
     kinds = []
     for i in range(rng.choice([0, 1, 2, 3])):
-        k = rng.choice(["file-inside", "dir-inside", "outside", "dangling", "chain"])
+        k = rng.choice(["file-inside", "dir-inside", "outside", "dangling", "chain", "hard", "loop", "fifo"])
         d = rng.choice(dirs)
         if k == "file-inside" and files:
             links[os.path.join(d, f"lnk{i}" + rng.choice([".c", ".h", ".txt", ""]))] = ("in", rng.choice(files))
@@ -93,6 +93,12 @@ def gen_tree(rng):
             links[os.path.join(d, f"ol{i}.c")] = ("out", f"out{i}.c")
         elif k == "dangling":
             links[os.path.join(d, f"dang{i}.c")] = ("in", f"nowhere{i}.c")
+        elif k == "hard" and files:
+            links[os.path.join(d, f"hard{i}" + os.path.splitext(files[0])[1])] = ("hard", rng.choice(files))
+        elif k == "loop":
+            links[os.path.join(d, f"loop{i}.c")] = ("loop", f"loop{i}.c")
+        elif k == "fifo":
+            links[os.path.join(d, f"pipe{i}.cpp")] = ("fifo", "")
         elif k == "chain" and files:
             links[os.path.join(d, f"ch{i}a.c")] = ("in", rng.choice(files))
             links[os.path.join(d, f"ch{i}b.c")] = ("in", os.path.join(d, f"ch{i}a.c"))
@@ -203,8 +209,16 @@ def build(base, tree):
             fh.write("int legacy;\n")
     for l, (where, target) in tree["links"].items():
         p = os.path.join(root, l)
-        t = os.path.join(root if where == "in" else base, target)
-        if not os.path.lexists(p):
+        if os.path.lexists(p):
+            continue
+        if where == "hard":
+            os.link(os.path.join(root, target), p)          # a second directory entry: a regular file like the first
+        elif where == "loop":
+            os.symlink(os.path.basename(p), p)              # a link to itself: resolves to nothing
+        elif where == "fifo":
+            os.mkfifo(p)                                    # exists, has a source extension, is not a regular file
+        else:
+            t = os.path.join(root if where == "in" else base, target)
             os.symlink(os.path.relpath(t, os.path.dirname(p)), p)
     return root
 
@@ -234,6 +248,8 @@ def expected_member(root, realroot, path, cwd, ignored_cache):
         return False, "missing", None
     if os.path.isdir(real):
         return False, "directory", None
+    if not os.path.isfile(real):
+        return False, "not-regular", None
     if os.path.splitext(real)[1] not in EXTENSIONS:
         return False, "extension", None
     if not (real + "/").startswith(realroot + "/") or real == realroot:
@@ -254,7 +270,7 @@ def check_case(ctx, git, tree, patterns, feats, base, cls):
         cells.add("name:line-break-character")
     for k in tree["link_kinds"]:
         cells.add({"file-inside": "link:file-inside", "dir-inside": "link:dir-inside", "outside": "link:outside",
-                   "dangling": "link:dangling", "chain": "link:chain"}[k])
+                   "dangling": "link:dangling", "chain": "link:chain", "hard": "link:hard", "loop": "link:loop", "fifo": "special:fifo"}[k])
     if any(set(f.split("/")[:-1]) & {".git", ".svn", ".hg", "CVS"} for f in tree["files"]):
         cells.add("name:vcs-directory")
     if any(f.startswith("~") for f in tree["files"]):
@@ -324,7 +340,8 @@ def check_case(ctx, git, tree, patterns, feats, base, cls):
             acc.hook("H-contains")
             cells.add("spell:" + kind)
             cells.add({"member": "member:yes", "excluded": "member:no-excluded", "extension": "member:no-extension",
-                       "outside": "member:no-outside", "directory": "member:no-directory", "missing": "member:no-missing"}[why])
+                       "outside": "member:no-outside", "directory": "member:no-directory", "missing": "member:no-missing",
+                       "not-regular": "member:no-not-regular"}[why])
             if why == "outside" and rel.startswith("root"):
                 cells.add("outside:sibling-with-root-prefix")
             if why == "member":
@@ -366,6 +383,21 @@ def check_case(ctx, git, tree, patterns, feats, base, cls):
         for p in listed:
             if p not in cb:
                 problems.append({"query": "enumerated path is not a member", "path": p})
+        # the same object enumerated again after the file system changed: one member deleted, one created
+        if real_members and not problems:
+            gone = sorted(real_members)[0]
+            new_file = os.path.join(realroot, "added_later.cpp")
+            os.unlink(gone)
+            with open(new_file, "w") as fh:
+                fh.write("int later;\n")
+            again = {os.path.realpath(p) for p in cb}
+            cells.add("iter:after-file-system-change")
+            ign3 = git.ignored(realroot, patterns, ["added_later.cpp"])
+            want_again = {m for m in real_members if os.path.exists(m)} | (set() if ign3.get("added_later.cpp") else {new_file})
+            if again != want_again:
+                problems.append({"query": "list(CodeBase) again after a file was deleted and one created",
+                                 "expected": sorted(os.path.relpath(x, realroot) for x in want_again),
+                                 "observed": sorted(os.path.relpath(x, realroot) for x in again)})
     except Exception as e:
         problems.append({"query": "list(CodeBase)", "observed": f"{type(e).__name__}: {e}"})
     if not problems and cls != "replay":
